@@ -285,6 +285,43 @@ def report(prop, tier, seed, t0, contracts, results, lemma_recs, validations, sp
                     break
         except Exception as e:
             rp["probe_error"] = f"{type(e).__name__}: {e}"
+    # a contract case whose obligations could not be generated (unsupported construct, crash of the executor) decides nothing by
+    # itself - but its probe scenarios still run on the real code, and one that fails there is a failing input whatever happened
+    # to the verifier (bounded, native; labelled so in the replay file). The checker error stays listed.
+    probed_contracts = set()
+    for r in errors:
+        c = reg.get(r["contract"])
+        if c is None or not hasattr(c, "probes") or r["contract"] in probed_contracts or n_replayed >= MAX_REPLAYS + 8:
+            continue
+        probed_contracts.add(r["contract"])
+        n_replayed += 1
+        case = [cs for cs in c.cases if repr(cs) == r["case"]]
+        if not case:
+            continue
+        case = case[0]
+        os.makedirs(rdir, exist_ok=True)
+        path = os.path.join(rdir, slug(f"{r['contract'].split('.', 2)[-1]}__{r['case']}__obligations-not-generated") + ".json")
+        rp = {"property": prop, "contract": r["contract"], "case": r["case"], "obligation": "(none generated)", "where": "",
+              "solver": None, "checker_error": r["error"][:600],
+              "note": "the obligations of this case could not be generated (checker error above); failing input searched among the contract's probe scenarios on the real code"}
+        try:
+            for pc in c.probes(case):
+                rp["call"] = pc
+                json.dump(rp, open(path, "w"), indent=1)
+                nat = RP.run_native(path)
+                verdict, detail = c.judge_native(I, case, pc, nat) if hasattr(c, "judge_native") else RP.evaluate_post(I, c, case, pc, nat)
+                if verdict == "violates":
+                    rp.update({"native_outcome": nat, "replay_verdict": verdict, "replay_detail": detail, "failing_input_found": True})
+                    json.dump(rp, open(path, "w"), indent=1)
+                    o = {"contract": r["contract"], "case": r["case"], "name": "probe-scenario-on-the-real-code (obligations not generated)", "where": "",
+                         "verdict": "failed", "backend": "native-probe"}
+                    violations.append((o, path, True))
+                    break
+            else:
+                if os.path.exists(path):
+                    os.remove(path)
+        except Exception as e:
+            rp["probe_error"] = f"{type(e).__name__}: {e}"
     failed = [o for o in failed if o["verdict"] == "failed"]
     unknown = [o for o in obligations if o["verdict"] == "unknown"]
     proved = [o for o in obligations if o["verdict"] == "proved"]
